@@ -57,7 +57,7 @@ const c11Kinds = 13
 type c11Case struct {
 	Outs   []int `json:"out_kinds"`
 	NIn    int   `json:"nin"`
-	Signed int   `json:"signed"` // 0 none, 1 all (107-byte scripts), 2 first only, 3 all with 50-byte scripts
+	Signed int   `json:"signed"` // 0 none, 1 all (107-byte scripts), 2 first only, 3 all with 50-byte scripts, 4 none (empty non-nil scripts)
 	Q      quote `json:"quote"`
 	Rel    int   `json:"rel"` // in-out relative to the reference fee: 0 fee-1, 1 fee, 2 fee+1, 3 out>in, 4 equal, 5 ample
 	OnEst  bool  `json:"on_estimate"`
@@ -88,6 +88,8 @@ func c11Build(c c11Case) *txref.Tx {
 			in.Script = fill(107, 0x30)
 		case c.Signed == 3:
 			in.Script = fill(50, 0x30)
+		case c.Signed == 4:
+			in.Script = []byte{} // unsigned the way a parsed or cloned transaction is: empty, not nil
 		}
 		t.Ins = append(t.Ins, in)
 	}
@@ -297,7 +299,7 @@ func c11ErrCheck(c c11Err) (fs []rep.Finding) {
 
 func init() {
 	p := register(&Prop{ID: "C11", Level: "exploration",
-		Rule: "exhaustive: (accounting) every multiset-ordered choice of <=2 (quick) / <=3 (thorough) outputs from 13 script kinds (P2PKH, OP_RETURN alone/empty/1/75/76-byte, OP_FALSE OP_RETURN with 65536-byte payload and bare, `00`, `00 51 6a`, empty, OP_RETURN not first) x inputs 0..3 x signing state (none/all/first/short scripts) x 11 fee quotes (independent std/data rates incl. >1 sat/byte, non-dyadic rates, zero) x in-out placed at {fee-1, fee, fee+1, out>in, equal, ample} relative to the big-integer reference fee of the actual and of the estimated size: TotalBytes=len(bytes)=Std+Data, fee = floor+floor, predicates exact; (signed) 8 keys x nIn 1..3 x nOut 0..2 x every subset of inputs pre-signed x plain/inscription spent script, paying to the hash of the compressed key, of the uncompressed form of the same key, or of another key: EstimateSize >= size after FillAllInputs; (counts) 252/253/254 outputs with 0..2 inputs and 252/253/254 inputs with 0..2 outputs x quotes x fee relations; (errors) every position x 7 missing/unsupported spent scripts x signed/unsigned: every estimator returns an error; (quote forms) the same quotes assembled through 5 other call sequences (Fee objects labelled with the other type, unlabelled, through FeeQuotes.UpdateMinerFees, update of existing entries, relabelled copy); (builders) outputs built by AddOpReturnOutput / AddOpReturnPartsOutput / CreateOpReturnOutput for item lengths {1,2,75,76,255,256,65535,65536} (single and pairs) and AddHashPuzzleOutput: script equals the reference layout and is counted as data / standard bytes accordingly. distinct_nontrivial = distinct (tx bytes, quote, relation) triples",
+		Rule: "exhaustive: (accounting) every multiset-ordered choice of <=2 (quick) / <=3 (thorough) outputs from 13 script kinds (P2PKH, OP_RETURN alone/empty/1/75/76-byte, OP_FALSE OP_RETURN with 65536-byte payload and bare, `00`, `00 51 6a`, empty, OP_RETURN not first) x inputs 0..3 x signing state (none/all/first/short scripts) x 11 fee quotes (independent std/data rates incl. >1 sat/byte, non-dyadic rates, zero) x in-out placed at {fee-1, fee, fee+1, out>in, equal, ample} relative to the big-integer reference fee of the actual and of the estimated size: TotalBytes=len(bytes)=Std+Data, fee = floor+floor, predicates exact; (signed) 8 keys x nIn 1..3 x nOut 0..2 x every subset of inputs pre-signed x plain/inscription spent script, paying to the hash of the compressed key, of the uncompressed form of the same key, or of another key: EstimateSize >= size after FillAllInputs; (counts) 252/253/254 outputs with 0..2 inputs and 252/253/254 inputs with 0..2 outputs x quotes x fee relations; (errors) every position x 7 missing/unsupported spent scripts x signed/unsigned: every estimator returns an error; (quote forms) the same quotes assembled through 6 other call sequences (Fee objects labelled with the other type, unlabelled, through FeeQuotes.UpdateMinerFees, update of existing entries, relabelled copy, a fresh default quote after another default quote's Fee objects were changed in place); (builders) outputs built by AddOpReturnOutput / AddOpReturnPartsOutput / CreateOpReturnOutput for item lengths {1,2,75,76,255,256,65535,65536} (single and pairs) and AddHashPuzzleOutput: script equals the reference layout and is counted as data / standard bytes accordingly. distinct_nontrivial = distinct (tx bytes, quote, relation) triples",
 	})
 	sA := NewSpace(p, "accounting", c11Check)
 	sS := NewSpace(p, "signed", c11SignCheck)
@@ -329,7 +331,7 @@ func init() {
 		}}).Each(r, func(yield func(c11Case)) {
 			for _, os := range outsets {
 				for nin := 0; nin <= 3; nin++ {
-					for sg := 0; sg < 4; sg++ {
+					for sg := 0; sg < 5; sg++ {
 						if nin == 0 && sg > 0 {
 							continue
 						}
@@ -354,7 +356,7 @@ func init() {
 			for nin := 1; nin <= 2; nin++ {
 				for _, q := range c11Quotes {
 					for rel := 0; rel < 3; rel++ {
-						for form := 1; form <= 5; form++ {
+						for form := 1; form <= 6; form++ {
 							bc = append(bc, c11Case{Outs: os, NIn: nin, Signed: 2, Q: q, Rel: rel, QForm: form}, c11Case{Outs: os, NIn: nin, Signed: 0, Q: q, Rel: rel, OnEst: true, QForm: form})
 						}
 					}
